@@ -36,7 +36,7 @@ pub struct Case {
 }
 
 /// numeric extremes, deep nesting, huge ranges, stray syntax
-pub const REPLACEMENTS: [&str; 44] = [
+pub const REPLACEMENTS: [&str; 52] = [
     "9223372036854775807", "9223372036854775808", "18446744073709551615", "18446744073709551616", "340282366920938463463374607431768211456",
     "-9223372036854775807 - 1", "0.000000000000000000000000000001", "179769313486231570000000000000000000000000000000000000000000000000000000000000000000000000000000000000000000000000000000000000000000000000000000000000000000000000000000000000000000000000000000000000000000000000000000000000000000000000000000000000000000000000000000000000000000000000000000000000000000000000.0",
     "99999999999999999999999999999999999999999999999999999999999999999999999999999999999999999999999999999999999999999999999999999999999999999999999999999999999999999999999999999999999999999999999999999999999999999999999999999999999999999999999999999999999999999999999999999999999999999999999999999999999999999999999999999999.0",
@@ -47,6 +47,10 @@ pub const REPLACEMENTS: [&str; 44] = [
     "x_{x_{x_{x_{x_{x_{x_{x_{1}}}}}}}}", "a[0][0][0][0][0][0][0][0]", "[[[[[[[[1]]]]]]]]",
     "\"\"", "\"\\u0041\\n\"", "true", "[]", "Graph { }", "Graph { A -> [A] }",
     "len(", ")", "{", "}", "for", "in", "\n",
+    "((((((((((((((((((((((((((((((((((((((((1", "abs { abs { abs { abs { abs { abs { abs { abs { abs { abs { abs { abs { abs { abs { abs { abs { abs { abs { abs { abs { x",
+    "len(len(len(len(len(len(len(len(len(len(len(len(len(len(len(len(len(len(len(len(len(len(len(len(a", "a[a[a[a[a[a[a[a[a[a[a[a[a[a[a[a[a[a[a[a[a[a[a[a[a[a[a[a[a[a[0",
+    "x_{x_{x_{x_{x_{x_{x_{x_{x_{x_{x_{x_{x_{x_{x_{x_{x_{x_{x_{x_{x_{x_{x_{x_{x_{x_{1", "[[[[[[[[[[[[[[[[[[[[[[[[[[[[[[[[[[[[[[[[1",
+    "1))))))))))))))))))))))))))))))))))))))))", "2(2(2(2(2(2(2(2(2(2(2(2(2(2(2(2(2(2(2(2(2(2(2(2(2(2(2(2(2(2(x",
 ];
 
 /// numbers that replace a number: the text stays a program
@@ -327,10 +331,21 @@ impl Prop for C18 {
     }
     fn fixed_cases(&self, _tier: Tier) -> Vec<Case> {
         let mut v: Vec<Case> = literals().into_iter().map(|s| Case { base: Base::Literal(s), muts: vec![] }).collect();
-        // nesting depth 64 in every bracket kind
-        for (open, close) in [("(", ")"), ("abs {", "}"), ("-(", ")"), ("not (", ")")] {
-            let src = format!("min 0\ns.t.\n    {}x{} <= 1\ndefine\n    x as Boolean", open.repeat(64), close.repeat(64));
-            v.push(Case { base: Base::Literal(src), muts: vec![] });
+        // nesting depth 64 in every bracket kind: closed, one closer short, and not closed at all
+        // (a parse that fails deep inside must fail as fast as one that succeeds)
+        for (open, close) in [
+            ("(", ")"), ("abs {", "}"), ("-(", ")"), ("not (", ")"), ("2(", ")"), ("len(", ")"), ("a[", "]"), ("x_{", "}"), ("min { 1, ", "}"),
+            ("sum(i in 0..2) { ", "}"), ("sum(i in 0..", ") { 1 }"), ("sum(i in enumerate(", ")) { 1 }"), ("(x)(", ")"), ("f(1, ", ")"),
+        ] {
+            for closers in [64usize, 63, 32, 0] {
+                let src = format!("min 0\ns.t.\n    {}x{} <= 1\ndefine\n    x as Boolean", open.repeat(64), close.repeat(closers));
+                v.push(Case { base: Base::Literal(src), muts: vec![] });
+            }
+        }
+        for closers in [64usize, 63, 0] {
+            v.push(Case { base: Base::Literal(format!("min 0\ns.t.\n    x <= 1\nwhere\n    let a = {}1{}\ndefine\n    x as Boolean", "[".repeat(64), "]".repeat(closers))), muts: vec![] });
+            v.push(Case { base: Base::Literal(format!("min 0\ns.t.\n    x <= 1\ndefine\n    x as Real{}1{}", "(".repeat(64), ")".repeat(closers))), muts: vec![] });
+            v.push(Case { base: Base::Literal(format!("min 0\ns.t.\n    x <= 1 for i in {}1{}\ndefine\n    x as Boolean", "(".repeat(64), ")".repeat(closers))), muts: vec![] });
         }
         v
     }
